@@ -370,8 +370,10 @@ ConservationLast == Len(rounds) >= 2 => ConservationAt(Len(rounds))
 Solid(S) == SumRat(prof0, {r \in DOMAIN prof0 : Len(r) >= Cardinality(S) /\ UNION {r[i] : i \in 1..Cardinality(S)} = S})
 Min2(a, b) == IF a < b THEN a ELSE b
 DPCApplies == cfg.rule \in {"STV", "IRV"} /\ cfg.quota = "droop" /\ cfg.xfer \in {"fractional", "random"}
+(* the quota of the statement, computed from the initial profile (not the implementation's stored threshold) *)
+DroopQuota == Threshold(Total(prof0), Seats, "droop")
 DPC == (status = "finished" /\ DPCApplies) => \A S \in SUBSET cands \ {{}} :
-   LET k == RFloor(RDiv(Solid(S), R(thr))) IN Cardinality(S \cap ElectedSoFar) >= Min2(Min2(k, Cardinality(S)), Seats)
+   LET k == RFloor(RDiv(Solid(S), R(DroopQuota))) IN Cardinality(S \cap ElectedSoFar) >= Min2(Min2(k, Cardinality(S)), Seats)
 (* C10: every recorded tiebreak is a strict order of exactly the tied set, the tied candidates were equal on *)
 (* the deciding tally, and the round's groups obey the order                                                *)
 TiebreaksWellFormed == \A i \in {Len(rounds)} : \A t \in rounds[i].tiebreaks :
